@@ -19,6 +19,9 @@ func init() {
 		Run:   runC20,
 		Trusted: []string{"soundness of the compiler's prove pass", "time.Time.Month() is in 1..12; time.Time accessors of a UTC time describe UTC", "the residual table in checker/c20.go (reviewed, one reason per entry)"},
 		Mutants: []mutant{
+			{Name: "request url rendered from the decoded path", File: "logger/pattern.go", Old: "\t\tb.WriteString(e.RequestURL.String())\n", New: "\t\tb.WriteString(e.RequestURL.Scheme + \"://\" + e.RequestURL.Host + e.RequestURL.Path)\n", Expect: "C20.E1"},
+			{Name: "i32toa negates in 32 bits", File: "proxy/http_headers.go", Old: "\ti := int64(n)\n\tsigned := i < 0\n\tif signed {\n\t\ti = -i\n\t}", New: "\tsigned := n < 0\n\tif signed {\n\t\tn = -n\n\t}\n\ti := int64(n)", Expect: "C20.N1"},
+
 			{Name: "hostport guard removed", File: "logger/pattern.go", Old: "\tif n < 0 {\n\t\t// no port, e.g. a target url without one\n\t\treturn s, \"\"\n\t}\n", New: "", Expect: "C20.P2"},
 			{Name: "new unguarded index in a field renderer", File: "logger/pattern.go", Old: "\t\tb.WriteString(e.Request.Proto)\n\t},\n\t\"$response_body_size\"", New: "\t\tb.WriteString(e.Request.Proto[5:])\n\t},\n\t\"$response_body_size\"", Expect: "C20.P"},
 			{Name: "UTC normalisation dropped", File: "logger/logger.go", Old: "\tev.Start, ev.End = e.Start.UTC(), e.End.UTC()\n", New: "", Expect: "C20.U1"},
@@ -123,6 +126,8 @@ func runC20(c *Ctx) {
 	runC20O1(c)
 	runC20I1(c)
 	runC20B1(c)
+	runC20E1(c)
+	runC20N1(c)
 }
 
 func runC20P(c *Ctx) {
@@ -478,10 +483,8 @@ func runC20O1(c *Ctx) {
 				if isNilConst(st.Val) {
 					okF = false
 				}
-				if _, isAlloc := st.Val.(*ssa.Alloc); !isAlloc {
-					if _, isParam := st.Val.(*ssa.Parameter); !isParam {
-						okF = false
-					}
+				if !plainlyNonNil(st.Val, 0) {
+					okF = false
 				}
 			}
 			c.check("C20.O1", "proxy.(*HTTPProxy).ServeHTTP|event."+fld+" set to a non-nil value", l.Pos(), okF,
@@ -577,4 +580,29 @@ func runC20B1(c *Ctx) {
 		c.check("C20.B1", "(*logger.logger).Log|shared writer used under the mutex", wr.Pos(), len(heldAt(wr, true)) > 0,
 			"concurrent requests share the log writer; lines interleave (and os.File offsets race) unless the write happens under l.mu")
 	}
+}
+
+// plainlyNonNil: a fresh allocation, the handler's own parameter, the result of a net/http method documented to
+// return a non-nil copy (WithContext, Clone), or a merge of such values.
+func plainlyNonNil(v ssa.Value, depth int) bool {
+	if depth > 6 {
+		return false
+	}
+	switch x := v.(type) {
+	case *ssa.Alloc, *ssa.Parameter:
+		return true
+	case *ssa.Phi:
+		for _, e := range x.Edges {
+			if e != x && !plainlyNonNil(e, depth+1) {
+				return false
+			}
+		}
+		return true
+	case *ssa.Call:
+		switch calleeName(&x.Call) {
+		case "(*net/http.Request).WithContext", "(*net/http.Request).Clone":
+			return true
+		}
+	}
+	return false
 }
